@@ -243,7 +243,20 @@ fn main() {
             let s2k = StringToKey::Argon2 { salt: [1; 16], t, p, m_enc: m };
             // parameter sets that would need more than 2 GiB if let through are probed in a child process with an
             // address-space limit, so that a broken gate shows as a refused allocation instead of taking the machine
-            let (r, peak, dt): (Result<bool, String>, usize, f64) = if m >= 22 && t <= 32 && p <= 32 {
+            // ... and sets above the ceilings that would be expensive if let through get three seconds in a child: a gate that
+            // lets one through shows as "still running" (= allowed) instead of stalling the whole check
+            let (r, peak, dt): (Result<bool, String>, usize, f64) = if should_refuse && !cheap && !(m >= 22 && t <= 32 && p <= 32) {
+                let exe = std::env::current_exe().unwrap();
+                let st = Instant::now();
+                let o = std::process::Command::new("sh").arg("-c").arg(format!("ulimit -v 3500000; exec timeout 3 {} replay argon {} {} {}", exe.display(), t, p, m)).output();
+                let dt = st.elapsed().as_secs_f64();
+                match o {
+                    Ok(o) if o.status.code() == Some(124) => (Ok(true), 0, 0.0),
+                    Ok(o) if o.status.success() => (Ok(String::from_utf8_lossy(&o.stdout).contains("ACCEPTED")), 0, dt),
+                    Ok(_) => (Ok(true), 0, 0.0),     // died under the address-space limit: it was allocating, i.e. let through
+                    Err(e) => (Err(e.to_string()), 0, dt),
+                }
+            } else if m >= 22 && t <= 32 && p <= 32 {
                 let exe = std::env::current_exe().unwrap();
                 let st = Instant::now();
                 let o = std::process::Command::new("sh").arg("-c").arg(format!("ulimit -v 3500000; exec {} replay argon {} {} {}", exe.display(), t, p, m)).output();
@@ -252,7 +265,7 @@ fn main() {
             } else { let (r, peak, _, dt) = measure(|| s2k.derive_key(b"pw", 16).is_ok()); (r, peak, dt) };
             let accepted = matches!(r, Ok(true));
             let quick_refusal = accepted || (dt < 1.0 && peak < (1 << 20));
-            out.case("argon", &[t.to_string(), p.to_string(), m.to_string()], &["argon2".into(), t.to_string(), p.to_string(), m.to_string()], if accepted { "allow" } else { "refuse" }, Some(r.is_ok() && quick_refusal), if accepted { "argon2-accepted" } else { "argon2-refused" });
+            out.case("argon", &[t.to_string(), p.to_string(), m.to_string()], &["argon2".into(), t.to_string(), p.to_string(), m.to_string()], if accepted { "allow" } else { "refuse" }, Some(r.is_ok() && quick_refusal && !(should_refuse && accepted)), if accepted { "argon2-accepted" } else { "argon2-refused" });
         } } }
         let cs: Vec<u8> = if thorough { (0..=255).collect() } else { vec![0, 1, 96, 200, 224, 255] };
         for c in cs {
